@@ -57,6 +57,9 @@ type TunnelPlan struct {
 	//  ping        a websocket PING control frame
 	//  send:<step> the canonical packet hs | tc | ta | cc, without waiting for its answer
 	//  wait:<flag> block until another script signals <flag>; signal:<flag> sets it
+	//  part1:<step>:<n> / part2:<step>:<n>  the first n bytes / the rest of the canonical packet hs | tc | ta | cc
+	//  expect:<step>  read the response to that step
+	//  reopen-out  legacy: a second RDG_OUT_DATA request with the same connection identifier
 	//  barrier     block until the scripts of all tunnels of the scenario are here
 	//  probe       record which resources of this very tunnel the gateway still holds now (other tunnels are alive)
 	// real tokens (ConcScenario.RealCookie): the access token the cookie carries (default "at-"+User; "at-u~2" is
@@ -65,6 +68,9 @@ type TunnelPlan struct {
 	AccessToken string
 	Revoked     bool
 	CookieIP    string
+	// Handshake != nil: the handshake request this client sends instead of the default one (version 1.0, cookie
+	// authentication offered)
+	Handshake []byte
 	// Expect: "" = the tunnel is served; "deny-cc" = its channel request is refused with the policy status and
 	// nothing is dialled for it; "deny-tc" = its tunnel request is refused
 	Expect      string
@@ -89,6 +95,8 @@ type TunnelObs struct {
 	SetupFailed string
 	ClientConns []*vnet.PipeConn
 	client      *TunnelClient
+	// HS: the handshake response as the client received it (nil: none)
+	HS *tsgu.Resp
 	// Probe: what of this tunnel was still held by the gateway when its script reached "probe" ("" = no probe,
 	// "released" = nothing)
 	Probe string
@@ -232,6 +240,10 @@ func runClient(w *World, h http.Handler, p TunnelPlan, o *TunnelObs) {
 			return false
 		}
 		r := tsgu.ParseResp(*pk)
+		if pk.Type == tsgu.TypeHandshakeResp && o.HS == nil {
+			rr := r
+			o.HS = &rr
+		}
 		if pk.Type != typ || r.Status != 0 {
 			o.SetupFailed = "got-" + strconv.Itoa(int(pk.Type)) + "-status-" + strconv.FormatUint(uint64(r.Status), 16) + "-waiting-for-" + strconv.Itoa(int(typ))
 			return false
@@ -243,7 +255,7 @@ func runClient(w *World, h http.Handler, p TunnelPlan, o *TunnelObs) {
 		pkt  []byte
 		resp uint16
 	}{
-		{"hs", tsgu.Handshake(1, 0, 0, tsgu.ExtAuthPAA), tsgu.TypeHandshakeResp},
+		{"hs", hsPacket(p), tsgu.TypeHandshakeResp},
 		{"tc", tsgu.TunnelCreate(planCookie(p), true), tsgu.TypeTunnelResp},
 		{"ta", tsgu.TunnelAuth("pc"), tsgu.TypeTunnelAuthResp},
 		{"cc", tsgu.ChannelCreate(hostOf(p.Host), portOf(p.Host)), tsgu.TypeChannelResp},
@@ -356,6 +368,47 @@ func runClient(w *World, h http.Handler, p TunnelPlan, o *TunnelObs) {
 		case op == "settle":
 			// let the gateway react to what happened so far before the next step
 			vsched.WaitIdle()
+		case strings.HasPrefix(op, "part1:"), strings.HasPrefix(op, "part2:"):
+			// the first n bytes / the rest of one packet of the canonical sequence, as one transport unit
+			f := strings.Split(op, ":")
+			n, _ := strconv.Atoi(f[2])
+			for _, st := range steps {
+				if st.name == f[1] && n < len(st.pkt) {
+					if f[0] == "part1" {
+						c.SendSegment(st.pkt[:n])
+					} else {
+						c.SendSegment(st.pkt[n:])
+					}
+				}
+			}
+		case strings.HasPrefix(op, "expect:"):
+			// read the response to a canonical step
+			for _, st := range steps {
+				if st.name == op[7:] {
+					expect(st.resp)
+				}
+			}
+		case op == "reopen-out":
+			// legacy: a second RDG_OUT_DATA request with the same connection identifier (the client re-opens its
+			// outbound channel); from now on responses are read from it
+			if c.Kind == "legacy" {
+				hd := http.Header{}
+				hd.Set("Rdg-Connection-Id", p.ConnID)
+				c.Absorb()
+				out := w.Serve("out2-"+p.ConnID, h, "RDG_OUT_DATA", hd, p.IP+":40002", id)
+				nc := &TunnelClient{Kind: "legacy", Conn: out.Client}
+				ok := nc.ReadHTTPHead() && strings.HasPrefix(nc.HTTPHead, "HTTP/1.1 200")
+				for ok && len(nc.rbuf) < 10 {
+					ok = nc.readMore()
+				}
+				if !ok {
+					o.SetupFailed = "outbound channel not accepted when re-opened"
+					return
+				}
+				o.ClientConns = append(o.ClientConns, out.Client)
+				c.Conn = out.Client
+				c.rbuf = append(c.rbuf, nc.rbuf[10:]...)
+			}
 		case op == "barrier":
 			w.Arrived++
 			vsched.Point("barrier", func() bool { return w.Arrived >= w.Parties })
@@ -389,6 +442,13 @@ func runClient(w *World, h http.Handler, p TunnelPlan, o *TunnelObs) {
 			}
 		}
 	}
+}
+
+func hsPacket(p TunnelPlan) []byte {
+	if p.Handshake != nil {
+		return p.Handshake
+	}
+	return tsgu.Handshake(1, 0, 0, tsgu.ExtAuthPAA)
 }
 
 func hostOf(hp string) string {
